@@ -54,6 +54,10 @@ enum {
 	QB_VP_ATOMIC_LOAD = 300,
 	QB_VP_ATOMIC_STORE,		/* a = value about to be stored */
 
+	/* qb_thread_lock / qb_thread_unlock (lib/util.c): obj = the lock, a = result */
+	QB_VP_THREAD_LOCKED = 500,	/* lock acquired */
+	QB_VP_THREAD_UNLOCKED,		/* lock released */
+
 	/* lib/log_thread.c -- logging thread (obj, a, b as noted) */
 	QB_VP_LOGT_W_WAIT = 400,	/* about to sem_wait (obj = the semaphore) */
 	QB_VP_LOGT_W_WOKEN,		/* sem_wait returned; about to lock (obj = the semaphore) */
